@@ -9,7 +9,7 @@ lookback) with scipy.integrate — independent of the closed forms.
 import math
 from common import *  # noqa
 from bs_common import *  # noqa
-from hedge_common import gen_market, build_derivative, inject, tens, OPTION_TYPES
+from hedge_common import gen_market, build_derivative, inject, tens, OPTION_TYPES, market_json, close_ulp
 
 SQ2PI = math.sqrt(2 * math.pi)
 
@@ -97,6 +97,130 @@ def compare_grid(ctx, got, exp, valid, case, key, what, tol=(1e-9, 1e-11)):
 
 def rand_rows(g, shape, lo, hi):
     return [[g.r.uniform(lo, hi) for _ in range(shape[1])] for _ in range(shape[0])]
+
+
+KIND_JSON = {"EuropeanOption": "european", "EuropeanBinaryOption": "european_binary",
+             "AmericanBinaryOption": "american_binary", "LookbackOption": "lookback"}
+LOG_STATE = {"log_moneyness", "max_log_moneyness"}
+
+
+class ModuleTie:
+    """correspondence of the input-resolution layer (nn/modules/bs/_base.py acquire_params_from_derivative_*, the modules'
+    constructors and price / delta methods) with its Lean model (Model/Acquire.lean, driver op `bs_module`): every scenario
+    records what the real code did — construction (error kind, or the module's call flag and strike), the resolved input tuple
+    returned by the real acquire_params_from_derivative_1/2 (or its error kind), the method's value (or its error kind) — and
+    the same scenario is executed by the model, one request per path; compared after one driver call.
+      resolved tuple: explicitly given entries and the derivative's time to maturity / volatility bit for bit (copies of
+      inputs, dyadic arithmetic); the derivative's (running-max) log-moneyness within 4 ulp (libm `log`);
+      value: within `tol` (transcendental functions); error kinds: equal."""
+
+    def __init__(self, ctx, torch):
+        self.ctx, self.torch = ctx, torch
+        self.reqs, self.metas = [], []
+
+    def add(self, case, option, what, build, N, T, markets, deriv, ctor, ov, construct, resolved, value, tol=(1e-9, 1e-11)):
+        """markets: per-path market JSON (or None: no derivative); deriv: dict(call, simulated, has_vol) | None;
+        ctor: (call, strike) for build == "init"; ov: name -> explicit tensor (any broadcastable shape);
+        construct: ("ok", call flag, strike) | ("err", kind); resolved / value: ("ok", tensors | tensor) | ("err", kind) | None"""
+        torch = self.torch
+        names = [n_ for n_ in STATE_NAMES if option in ("LookbackOption", "AmericanBinaryOption") or n_ != "max_log_moneyness"]
+        full = {k_: torch.broadcast_to(v_.detach().to(torch.float64), (N, T)).tolist() for k_, v_ in ov.items()}
+        obs = {"construct": construct, "names": names, "given": sorted(ov), "resolved": None, "value": None}
+        if resolved is not None:
+            obs["resolved"] = ("err", resolved[1]) if resolved[0] != "ok" else \
+                ("ok", [torch.broadcast_to(x.detach().to(torch.float64), (N, T)).tolist() for x in resolved[1]])
+        if value is not None:
+            if value[0] != "ok":
+                obs["value"] = ("err", value[1])
+            elif tuple(value[1].shape) != (N, T):
+                obs["value"] = ("shape", list(value[1].shape))
+            else:
+                obs["value"] = ("ok", value[1].detach().to(torch.float64).tolist())
+        for p_ in range(N):
+            req = {"op": "bs_module", "kind": KIND_JSON[option], "method": what, "build": build,
+                   "derivative": None if deriv is None else {"market": markets[p_], "call": deriv["call"],
+                                                             "simulated": deriv["simulated"], "has_vol": deriv["has_vol"]},
+                   "given": {k_: enc_flt(v_[p_]) for k_, v_ in full.items()}, "cells": list(range(T))}
+            if build == "init":
+                req["call"], req["strike"] = bool(ctor[0]), float_bits(ctor[1])
+            self.reqs.append(req)
+            self.metas.append((case, p_, obs, tol))
+
+    def compare(self):
+        ctx = self.ctx
+        try:
+            outs = ctx.driver(self.reqs)
+        except DriverBroken as e:
+            ctx.ties_broken.append({"kind": "driver", "detail": str(e)[:1500]})
+            return
+        bad_cases = set()
+        for (case, p_, obs, tol), r in zip(self.metas, outs):
+            cid = id(case)
+            if cid in bad_cases:
+                continue
+
+            def dis(part, impl, model, cid=cid, case=case, p_=p_):
+                bad_cases.add(cid)
+                ctx.disagree("bs_module:" + part, case | {"path": p_}, impl, model)
+            if "bad" in r:
+                dis("protocol", None, r)
+                continue
+            ctx.evaluations += 1
+            con = r["construct"]
+            if "err" in con:
+                if obs["construct"] != ("err", con["err"]):
+                    dis("construct", list(obs["construct"]), con)
+                else:
+                    ctx.stats["bs_module:agreed:construct_error"] += 1
+                continue
+            if obs["construct"][0] != "ok":
+                dis("construct", list(obs["construct"]), con)
+                continue
+            if bool(obs["construct"][1]) != con["ok"]["call"] or float_bits(obs["construct"][2]) != con["ok"]["strike"]:
+                dis("construct", list(obs["construct"]), con)
+                continue
+            res, val = obs["resolved"], obs["value"]
+            for j, cell in enumerate(r["cells"]):
+                mres, mval = cell["resolved"], cell["value"]
+                if res is not None:
+                    if res[0] == "err" or "err" in mres:
+                        if res[0] != "err" or mres.get("err") != res[1]:
+                            dis("resolved", res[1] if res[0] == "err" else "ok", mres | {"step": j})
+                            break
+                        ctx.stats["bs_module:agreed:resolve_error:" + res[1]] += 1
+                    else:
+                        mt = dec_flt(mres["ok"])
+                        if len(mt) != len(res[1]):
+                            dis("resolved", len(res[1]), mres | {"step": j})
+                            break
+                        stop = False
+                        for name, impl_rows, mv in zip(obs["names"], res[1], mt):
+                            iv = impl_rows[p_][j]
+                            exact = name in obs["given"] or name not in LOG_STATE
+                            same = (float_bits(iv) == float_bits(mv) or (iv == mv)) if exact else close_ulp(iv, mv, 4)
+                            if not same:
+                                dis("resolved:" + name, {"step": j, "value": iv, "bits": float_bits(iv), "explicit": name in obs["given"]},
+                                    {"value": mv, "bits": float_bits(mv)})
+                                stop = True
+                                break
+                        if stop:
+                            break
+                        ctx.stats["bs_module:agreed:resolved_cells"] += 1
+                if val is not None:
+                    if val[0] == "shape":
+                        dis("value:shape", val[1], "one value per (path, step)")
+                        break
+                    if val[0] == "err" or "err" in mval:
+                        if val[0] != "err" or mval.get("err") != val[1]:
+                            dis("value", val[1] if val[0] == "err" else "ok", mval | {"step": j})
+                            break
+                        ctx.stats["bs_module:agreed:value_error:" + val[1]] += 1
+                    else:
+                        iv, mv = val[1][p_][j], float_of_bits(mval["ok"])
+                        if not rel_close(iv, mv, *tol):
+                            dis("value", {"step": j, "value": iv}, {"value": mv, "resolved": dec_flt(mres["ok"]) if "ok" in mres else mres})
+                            break
+                        ctx.stats["bs_module:agreed:value_cells"] += 1
 
 
 def check(ctx):
@@ -243,6 +367,13 @@ def check(ctx):
     def build_module(how, option, d):
         return BlackScholes(d) if how == "BlackScholes" else getattr(pnn, "BS" + option).from_derivative(d)
 
+    from pfhedge.nn.modules.bs import _base as bs_base
+    tie = ModuleTie(ctx, torch)
+
+    def acquire_fn(pd_):
+        """the real resolution function the methods of this module kind call"""
+        return bs_base.acquire_params_from_derivative_2 if pd_ else bs_base.acquire_params_from_derivative_1
+
     def shaped(N, T, form, lo, hi):
         sh = {"full": (N, T), "col": (N, 1), "row": (1, T), "scalar": (1, 1)}[form]
         x = torch.tensor(rand_rows(g, sh, lo, hi), dtype=torch.float64)
@@ -301,6 +432,11 @@ def check(ctx):
         st, got, mut = call_impl(getattr(mod, what), watch=[("derivative", d)], **ov)
         if mut:
             ctx.mutated(f"BSModule.{what}", mut, case)
+        # the same call in the model of the resolution layer (op bs_module): resolved tuple of the real acquire function + value
+        rst, rres, _ = call_impl(acquire_fn(pd), derivative=getattr(mod, "derivative", None), **ov)
+        tie.add(case, option, what, "from_derivative", N, T, [market_json(mk, p_) for p_ in range(N)],
+                {"call": mk["call"], "simulated": True, "has_vol": True}, None, ov,
+                ("ok", getattr(mod, "call", None), getattr(mod, "strike", float("nan"))), (rst, rres), (st, got))
         if st != "ok":
             ctx.fail(f"module.{what}() with some inputs given explicitly raised", case, key=f"bs_module:{option}:partial-override:error", detail=got)
             continue
@@ -409,11 +545,105 @@ def check(ctx):
                     if abs(float(got[0, 0]) - exp0) > 2e-6 * max(1.0, K):
                         ctx.fail("the price quoted by the module built from a put derivative differs from the numerically integrated expected PUT payoff",
                                  case | {"s": s0, "t": t0, "v": v0}, key=f"bs_module:{option}:put:value", detail={"module": float(got[0, 0]), "integral": exp0})
+    # (d) the resolution layer at its edges (correspondence with Model/Acquire.lean only; the expected outcome is the MODEL's):
+    #   modules without a derivative (everything must be explicit: ValueError otherwise; an unexpected max_log_moneyness keyword
+    #   is a TypeError), derivatives whose underlier has not been simulated (AttributeError for the first omitted input),
+    #   underliers with a spot but no volatility (HestonStock without its variance buffer) and with a volatility but no spot,
+    #   put derivatives (rejected at construction by the American-binary / lookback modules), no overrides at all
+    def empty_market(K_, dt_, spot=None, vol=None):
+        return {"spot": enc_flt(spot or []), "variance": enc_flt([x * x for x in (vol or [])]), "volatility": enc_flt(vol or []),
+                "listed": enc_flt(spot or []), "dt": float_bits(dt_), "strike": float_bits(K_), "oracle": enc_flt([0.0] * len(spot or []))}
+
+    for _ in range(120 if ctx.tier == "quick" else 1200):
+        mk = gen_market(g, primary="HestonStock")
+        mk["vol"] = [[x if x > 0 else type(x)(1) / 4 for x in r] for r in mk["vol"]]
+        mk["var"] = [[x * x for x in r] for r in mk["vol"]]
+        option = mk["option"]
+        pd = option in ("LookbackOption", "AmericanBinaryOption")
+        scen = g.weighted([("no_derivative", 4), ("not_simulated", 3), ("no_volatility", 3), ("volatility_only", 2),
+                           ("put", 2), ("all_from_derivative", 1)])
+        if scen != "put" and pd:
+            mk["call"] = True
+        if scen == "put":
+            mk["call"] = False
+        N, T, K, dt = mk["N"], mk["T"], float(mk["strike"]), float(mk["dt"])
+        how = g.choice(["BlackScholes", "from_derivative"])
+        what = g.choice(["price", "price", "delta"])
+        names = [n_ for n_ in STATE_NAMES if pd or n_ != "max_log_moneyness"]
+        # which inputs are explicit: everything / everything but one / any subset / nothing
+        r_ = g.r.random()
+        if scen in ("put", "all_from_derivative"):
+            given = []
+        elif r_ < 0.3:
+            given = list(names)
+        elif r_ < 0.6:
+            given = [n_ for n_ in names if n_ != g.choice(names)]
+        else:
+            given = [n_ for n_ in names if g.chance(0.5)]
+        if not pd and scen == "no_derivative" and g.chance(0.12):
+            given = given + ["max_log_moneyness"]           # not a keyword of the European / European-binary methods
+        ov = {}
+        if "log_moneyness" in given:
+            ov["log_moneyness"] = shaped(N, T, "full", -1.0, 1.0)
+        if "max_log_moneyness" in given:
+            ov["max_log_moneyness"] = (ov["log_moneyness"] if "log_moneyness" in given else torch.zeros(N, T, dtype=torch.float64) + 1.0) \
+                + shaped(N, T, "full", 0.0, 0.6)
+        if "time_to_maturity" in given:
+            ov["time_to_maturity"] = shaped(N, T, "full", 0.01, 5.0)
+        if "volatility" in given:
+            ov["volatility"] = shaped(N, T, "full", 0.02, 2.0)
+        spot_rows = [[float(x) for x in r] for r in mk["spot"]]
+        vol_rows = [[float(x) for x in r] for r in mk["vol"]]
+        case = {"scenario": scen, "option": option, "call": mk["call"], "strike": rat_str(mk["strike"]), "built": how, "method": what,
+                "given": {k_: v_.tolist() for k_, v_ in ov.items()}, "spot": enc_rat(mk["spot"]), "vol": enc_rat(mk["vol"]), "dt": rat_str(mk["dt"])}
+        ctx.case(case, True, tag="module_edge")
+        ctx.stats[f"edge:{scen}"] += 1
+        ctx.traces += 1
+        deriv, markets, ctor, build = None, None, None, "from_derivative"
+        if scen == "no_derivative":
+            ctor, build = (mk["call"], K), "init"
+            cst, mod, _ = call_impl(getattr(pnn, "BS" + option), call=mk["call"], strike=K)
+        else:
+            if scen in ("put", "all_from_derivative"):
+                d, u = build_derivative(torch, mk)
+                deriv = {"call": mk["call"], "simulated": True, "has_vol": True}
+                markets = [market_json(mk, p_) for p_ in range(N)]
+            else:
+                if scen == "volatility_only":
+                    u = pin.LocalVolatilityStock(lambda t_, s_: s_, dt=dt, dtype=torch.float64)
+                    u.register_buffer("volatility", tens(torch, mk["vol"]))
+                    deriv = {"call": mk["call"], "simulated": False, "has_vol": True}
+                    markets = [empty_market(K, dt, None, vol_rows[p_]) for p_ in range(N)]
+                elif scen == "no_volatility":
+                    u = pin.HestonStock(dt=dt, dtype=torch.float64)
+                    u.register_buffer("spot", tens(torch, mk["spot"]))
+                    deriv = {"call": mk["call"], "simulated": True, "has_vol": False}
+                    markets = [empty_market(K, dt, spot_rows[p_], None) for p_ in range(N)]
+                else:
+                    u = (pin.BrownianStock(sigma=float(mk["sigma"]), dt=dt, dtype=torch.float64) if g.chance(0.5)
+                         else pin.HestonStock(dt=dt, dtype=torch.float64))
+                    deriv = {"call": mk["call"], "simulated": False, "has_vol": False}
+                    markets = [empty_market(K, dt) for p_ in range(N)]
+                d = getattr(pin, option)(u, call=mk["call"], strike=K, maturity=(T - 1) * dt)
+            cst, mod, _ = call_impl(build_module, how, option, d)
+        if cst != "ok":
+            tie.add(case, option, what, build, N, T, markets, deriv, ctor, ov, ("err", mod), None, None)
+            ctx.stats[f"edge:construct:{mod}"] += 1
+            continue
+        rst, rres, _ = call_impl(acquire_fn(pd), derivative=getattr(mod, "derivative", None), **ov)
+        st, got, _ = call_impl(getattr(mod, what), **ov)
+        ctx.stats[f"edge:outcome:{'ok' if st == 'ok' else got}"] += 1
+        tie.add(case, option, what, build, N, T, markets, deriv, ctor, ov,
+                ("ok", getattr(mod, "call", None), getattr(mod, "strike", float("nan"))), (rst, rres), (st, got))
+    tie.compare()
+    ctx.stats["bs_module:requests"] = len(tie.reqs)
     return ctx.finish(
         rule="prices over log-moneyness [-1,1] x t (0,5] x v (0,2] x K (0.1,10], running max >= spot incl. equality and exactly at the strike, "
              "float64/float32, broadcast shapes; BS modules from derivatives on injected markets (all inputs from the derivative; a proper subset given explicitly in "
              "full / column / row / scalar shapes; the same stock, derivative and module over three simulations with changed sigma / paths; put derivatives of "
-             "all four option types through BlackScholes and from_derivative); numerical-integration oracle on a subsample; "
+             "all four option types through BlackScholes and from_derivative); the resolution layer against its model (op bs_module: partial overrides, modules "
+             "without a derivative, unsimulated underliers, underliers without volatility / without spot, puts, unexpected keyword: resolved tuple, value and "
+             "error kind per (path, step)); numerical-integration oracle on a subsample; "
              "every case non-trivial; distinct = sha1 of canonical case",
         explanation="European and European-binary prices: equality with the defining expectation is a theorem (Props/C07). American binary and lookback: "
                     "the expectation identity is NOT proved (no Brownian-motion/reflection principle in Mathlib) — partial; validated numerically by the "
